@@ -93,6 +93,17 @@ def run(tier, seed):
     cases = []
     for i, ab in enumerate(abstract):
         cases.append(case_of("m%d" % i, [(ab, concretize(ab))], rnd))
+    # boundary supplement (also in the quick tier): three- and four-argument lines of the
+    # commands that parse numbers, with the numeric token classes in every numeric position
+    numeric = ["num", "neg", "i32max", "i32min", "u64max", "u128big", "word"]
+    for w in ["set-safe", "replicate", "replicate-increment", "increment", "resolve", "ack", "rp",
+              "replicate-since", "election", "create-db", "snapshot"]:
+        for a1 in (["key", "db", "kw:candidate"] if w == "election" else ["key", "db"]):
+            for a2 in numeric:
+                for a3 in ["word", "i32max", "key"]:
+                    for a4 in ([None, "i32max"] if w in ("replicate", "resolve", "rp") else [None]):
+                        ab = [w, a1, a2, a3] + ([a4] if a4 else [])
+                        cases.append(case_of("b%d" % len(cases), [(ab, concretize(ab))], rnd))
     n_model = len(cases)
     # sequences of 1-4 lines with longer argument lists, and raw random byte strings
     words = sorted({a[0] for a in abstract})
